@@ -2,6 +2,7 @@ import MaltModel.Proofs.C17Inst
 import MaltModel.Conv.TemplateHyp
 import MaltModel.Conv.SrcClass
 import MaltModel.Proofs.C17Roundtrip
+import MaltModel.Proofs.C17Arity
 import MaltModel.Generated.Templates
 /-
 C17 — generated code is a well-formed tree that loads as what `to_code` shows.
@@ -9,6 +10,8 @@ C17 — generated code is a well-formed tree that loads as what `to_code` shows.
 What is proved here (for ALL templates, bindings, trees — by structural induction over `Py.Ast`):
 * `C17_ctx_checker_sound` / `_complete`   the executable context checker `ctxOk` (run by the harness on the REAL tree returned
                                by `transform_ast`) decides the structural property `CtxWellFormed`.
+* `C17_tree_checker_sound` / `_complete`  the same checker extended by the arity invariants of `arguments` / `Compare`
+                               (`Conv/Arity.lean`): `ctxOk t && arityOk t` decides `CtxWellFormed t ∧ ArityWellFormed t`.
 * `C17_template_ctx_partial`   `templates.replace` (model: `instantiate`) yields a context-well-formed tree from a
                                context-well-formed template and well-formed bindings, PROVIDED `usesOkSs`: the
                                `ContextAdjuster` never reaches a `NamedExpr`, a `Starred` of another ctx or a non-assignable
@@ -45,6 +48,30 @@ theorem C17_ctx_checker_sound (t : List Stmt) : ctxOk t = true → CtxWellFormed
 /-- ... and it rejects nothing that is well-formed (so a rejection is a real defect of the tree). -/
 theorem C17_ctx_checker_complete (t : List Stmt) : CtxWellFormed t → ctxOk t = true :=
   (okSs_iff t).2
+
+/-- The checker run on the real tree also decides the arity invariants of nodes with parallel lists
+(`len(kw_defaults) = len(kwonlyargs)`, `len(defaults) ≤ len(posonlyargs) + len(args)`, `len(ops) = len(comparators)`). -/
+theorem C17_tree_checker_sound (t : List Stmt) :
+    (ctxOk t && arityOk t) = true → CtxWellFormed t ∧ ArityWellFormed t := by
+  intro h
+  simp only [Bool.and_eq_true] at h
+  exact ⟨(okSs_iff t).1 h.1, (arSs_iff t).1 h.2⟩
+
+theorem C17_tree_checker_complete (t : List Stmt) :
+    CtxWellFormed t → ArityWellFormed t → (ctxOk t && arityOk t) = true := by
+  intro h1 h2
+  simp only [Bool.and_eq_true]
+  exact ⟨(okSs_iff t).2 h1, (arSs_iff t).2 h2⟩
+
+/-- `def f(x, *, scale, offset=0)`: two keyword-only parameters, `kw_defaults = [None, 0]` is accepted; the list with the
+`None` entry dropped is rejected (contexts are fine in both). -/
+example :
+    arityOk [.functionDef 1 "f" (.arguments 2 [] [.arg 3 "x" []] [] [.arg 4 "scale" [], .arg 5 "offset" []]
+        [.noneMarker, .const 6 "int" "0"] [] []) [.pass 7] [] [] false] = true ∧
+    arityOk [.functionDef 1 "f" (.arguments 2 [] [.arg 3 "x" []] [] [.arg 4 "scale" [], .arg 5 "offset" []]
+        [.const 6 "int" "0"] [] []) [.pass 7] [] [] false] = false ∧
+    ctxOk [.functionDef 1 "f" (.arguments 2 [] [.arg 3 "x" []] [] [.arg 4 "scale" [], .arg 5 "offset" []]
+        [.const 6 "int" "0"] [] []) [.pass 7] [] [] false] = true := by decide
 
 /-- `x, *y = z` / `del a.b, c[0]` / `for (i, j) in w: pass` / `[(q := 1) for k in r]` are accepted … -/
 example : ctxOk [
